@@ -117,11 +117,23 @@ impl Array {
         let (a, a_transpose) = a;
         let (b, b_transpose) = b;
 
-        let input_dimensions = if a.dimensions.len() >= b.dimensions.len() {
-            &a.dimensions
+        let (mut input_dimensions, other_dimensions) = if a.dimensions.len() >= b.dimensions.len() {
+            (a.dimensions.clone(), &b.dimensions)
         } else {
-            &b.dimensions
+            (b.dimensions.clone(), &a.dimensions)
         };
+
+        // the leading dimensions of either matrix may be broadcast
+        for (d, o) in input_dimensions
+            .iter_mut()
+            .rev()
+            .skip(2)
+            .zip(other_dimensions.iter().rev().skip(2))
+        {
+            if *d == 1 {
+                *d = *o;
+            }
+        }
 
         // TODO OpenCL
         let output_rows = if a.dimensions.len() < 2 && (!a_transpose || b.dimensions.len() < 2) {
@@ -253,7 +265,7 @@ impl Array {
             vec![a, b, c],
             &op,
             backward_op,
-            input_dimensions,
+            &input_dimensions,
             &output_dimensions,
             2,
             0,
